@@ -703,7 +703,10 @@ def apply_dict_op(target, op, items, is_plain):
         raise ValueError(form)
     if n == "ior":
         t = target
-        t |= dict((K(k), items[v]) for k, v in op[2])
+        if op[1] == "pairs":
+            t |= [(K(k), items[v]) for k, v in op[2]]  # dict.__ior__ also accepts an iterable of pairs
+        else:
+            t |= dict((K(k), items[v]) for k, v in op[2])
         if t is not target:
             raise AssertionError("|= returned another object")
         return None
@@ -833,7 +836,7 @@ def gen_dict_sequence(rng, maxlen=8):
             ops.append(["update", rng.choice(["mapping", "pairs", "kwargs", "mapping+kwargs", "pairs+kwargs"]), [[kk, rng.randrange(NITEMS)] for kk in ks]])
         elif w < 0.84:
             ks = rng.sample(range(NKEYS), rng.choice([0, 1, 2]))
-            ops.append(["ior", "mapping", [[kk, rng.randrange(NITEMS)] for kk in ks]])
+            ops.append(["ior", rng.choice(["mapping", "mapping", "pairs"]), [[kk, rng.randrange(NITEMS)] for kk in ks]])
         elif w < 0.92:
             ops.append(["kset", v])
         else:
